@@ -101,6 +101,10 @@ type Server struct {
 	LogOn     bool
 	seq       int
 	casCtr    uint64 // last CAS value handed out (starts well above 0: low bytes non-zero)
+	// Segment > 0: connections handed out by Pipe() deliver the backend's bytes to their reader
+	// in pieces of 1..Segment bytes
+	Segment int
+	segSeed int
 	faults    map[int]Fault
 	// Gate, when set, is called before each request is processed (after it was read).
 	Gate      func(conn int, r *Req)
@@ -214,7 +218,33 @@ func norm(now int64, ttl uint32) int64 {
 var PipeFactory = func() (net.Conn, net.Conn) { return net.Pipe() }
 
 // Pipe returns the client end of a new in-memory connection served by s.
+// segConn delivers what it reads in pieces of at most max bytes (sizes from a small LCG): the
+// backend's replies reach the handler split at arbitrary places, as TCP segments would.
+type segConn struct {
+	net.Conn
+	max   int
+	state uint32
+}
+
+func (c *segConn) Read(b []byte) (int, error) {
+	c.state = c.state*1664525 + 1013904223
+	n := 1 + int(c.state>>16)%c.max
+	if n < len(b) {
+		b = b[:n]
+	}
+	return c.Conn.Read(b)
+}
+
 func (s *Server) Pipe() net.Conn {
+	if s.Segment > 0 {
+		c, _ := s.PipeID()
+		s.segSeed++
+		return &segConn{Conn: c, max: s.Segment, state: uint32(s.segSeed) * 2654435761}
+	}
+	return s.pipe()
+}
+
+func (s *Server) pipe() net.Conn {
 	c, _ := s.PipeID()
 	return c
 }
@@ -499,7 +529,11 @@ func (s *Server) apply(q *Req, val []byte) []byte {
 		}
 		e.RawExp = q.Exp
 		e.Deadline = norm(now, q.Exp)
-		return okr(nil, nil)
+		// like memcached, a successful touch reply carries the item's flags as 4 bytes of extras
+		// (and no value)
+		fl := make([]byte, 4)
+		binary.BigEndian.PutUint32(fl, e.Flags)
+		return okr(fl, nil)
 	case OpGet, OpGetQ, OpGat, OpGatQ, OpGetE, OpGetEQ:
 		if !live {
 			if isQuiet(q.Op) {
